@@ -1,6 +1,7 @@
 """C10 — metadata travels with exactly the data it describes.
 
-Lean: Model/Graph.lean (`md` component of every effect), Props/C10.lean.  Correspondence:
+Lean: Model/Graph.lean (`md` component of every effect), Props/C10.lean; asynchronous node groups (timed windows,
+partition with timeout, zip(maxsize), buffer, map_async): the `c10_` theorems of Props/AsyncMetadata.lean.  Correspondence:
 tag lists at every arrive/emit event of every node, implementation vs model.  Oracle
 (model-free): per output the concatenation, in member order, of the tags of the inputs that
 contributed to it according to the node's documented meaning; shape check (flat list of dicts).
@@ -40,8 +41,20 @@ CORPUS = [
 ASYNC_KINDS = ["buffer", "delay", "rate_limit", "map_async", "timed_window", "partition_timeout"]
 
 
+def lean_extra():
+    """Extra Props modules audited for C10: the `c10_` theorems of the asynchronous node groups (Props/AsyncMetadata.lean,
+    plus any `c10_` theorem the node-group modules themselves carry)."""
+    import os
+    from .. import common
+    from . import c02
+    out = list(c02.lean_extra("C10"))
+    if os.path.exists(os.path.join(common.LEAN_DIR, "StreamzVerif", "Props", "AsyncMetadata.lean")):
+        out.append(("StreamzVerif.Props.AsyncMetadata", "c10_"))
+    return out
+
+
 def run(ctx):
-    ctx.audit()
+    ctx.audit(extra_modules=lean_extra())
     n = 300 if not ctx.thorough() else 10000
     graphcheck.run_family(ctx, n, ASPECTS, CHECKS, SIGS, corpus=CORPUS)
     # metadata must stay attached to the right data after a fault as well (a consumer raising in the middle of a
@@ -51,13 +64,17 @@ def run(ctx):
     # has received at quiescence, in order, against the same pipeline with the timing removed
     from . import _async_common as A
     A.sweep(ctx, 100 if not ctx.thorough() else 3000, ASYNC_KINDS, ["metadata"], ("metadata",), p_zip=0.1, opts={"p_multi": 0.2})
+    # ... and the node-group correspondences (batches / tuples WITH their metadata against Model/AsyncWindows, Model/AsyncZip)
+    from .. import corr_asyncwindows, corr_asynczip
+    for m in (corr_asyncwindows, corr_asynczip):
+        m.run(ctx, "C10", 30 if not ctx.thorough() else 1000)
     ctx.coverage["rule"] = ("as C01; every emission carries 0, 1 or 2 tagged metadata dictionaries (70% of emissions carry some). "
                             "Non-trivial: pipeline has a combining/batching/dropping node and >= 8 flow events.")
     ctx.assumptions += ["metadata dictionaries are identified by an integer tag; reference counters are a logging RefCounter subclass"]
 
 
 def replay(ctx, data):
-    ctx.audit()
+    ctx.audit(extra_modules=lean_extra())
     case = data["case"]
     if case.get("mode") == "async" and any(n["kind"] in ASYNC_KINDS for n in case["nodes"]):
         from .. import asynccheck as ac
